@@ -173,10 +173,10 @@ func genVal(r *rand.Rand, fed *federation, d *dataGraph, t *ast.Type, o dataOpts
 		ids := d.Order[def.Name]
 		return refVal{def.Name, ids[r.Intn(len(ids))]}
 	case ast.Interface, ast.Union:
-		pts := fed.Mono.PossibleTypes[def.Name]
+		pts := sortedDefNames(fed.Mono.PossibleTypes[def.Name])
 		pt := pts[r.Intn(len(pts))]
-		ids := d.Order[pt.Name]
-		return refVal{pt.Name, ids[r.Intn(len(ids))]}
+		ids := d.Order[pt]
+		return refVal{pt, ids[r.Intn(len(ids))]}
 	}
 	return nil
 }
